@@ -148,6 +148,51 @@ namespace {
          ipr::Printer pp { z.mk.w.lex, os };
          try { pp << static_cast<const ipr::Translation_unit&>(z.mk.w.unit); } catch (const std::logic_error&) { }
       }
+      else if (kind == "constants") {
+         // requests whose arguments are process-wide constants only: whatever a Lexicon builds for them is its own, and a
+         // later Lexicon (the histories run one after another in this process) must get nodes of its own storage
+         impl::Lexicon lex;
+         const ipr::Lexicon& clex = lex;
+         auto& xc = lex.get_transfer_from_linkage(clex.c_linkage());
+         auto& xx = lex.get_transfer_from_linkage(clex.cxx_linkage());
+         auto& xn = lex.get_transfer(clex.c_linkage(), lex.get_calling_convention(u8""));
+         auto& xj = lex.get_transfer(clex.cxx_linkage(), lex.get_calling_convention(u8"cdecl"));
+         impl::Warehouse<ipr::Type> wh;
+         wh.push_back(lex.int_type());
+         auto& prod = lex.get_product(wh);
+         for (auto x : { &xc, &xx, &xn, &xj, &impl::cxx_transfer() }) {
+            auto& f = lex.get_function(prod, lex.void_type(), *x);
+            (void)f.transfer().linkage().language().what().size();
+            (void)f.transfer().convention().name().what().size();
+            auto& t = lex.get_as_type(lex.true_value(), *x);
+            (void)(t.transfer() == f.transfer());
+         }
+         lex.get_function(prod, lex.int_type());
+         lex.get_function(prod, lex.int_type(), lex.false_value());
+         for (auto w : { u8"int", u8"unsigned long long", u8"class", u8"...", u8"x", u8"C", u8"C++", u8"default", u8"" }) {
+            auto& id = lex.get_identifier(w);
+            (void)lex.get_as_type(id).name();
+            (void)lex.get_linkage(w).language().what().size();
+            (void)lex.get_calling_convention(w).name().what().size();
+            lex.get_label(id);
+            lex.get_symbol(id, lex.int_type());
+            (void)lex.get_logogram(lex.get_string(w)).what().size();
+            lex.get_operator(w);
+            lex.get_literal(lex.char_type(), w);
+         }
+         for (auto t : { &lex.void_type(), &lex.int_type(), &lex.typename_type(), &lex.class_type() }) {
+            lex.get_pointer(*t); lex.get_reference(*t); lex.get_rvalue_reference(*t);
+            lex.get_qualified(clex.const_qualifier(), *t);
+            lex.get_qualified(clex.const_qualifier() | clex.volatile_qualifier(), *t);
+            lex.get_array(*t, lex.nullptr_value());
+            lex.get_this(*t); lex.get_ctor_name(*t); lex.get_dtor_name(*t); lex.get_conversion(*t);
+            lex.get_decltype(lex.true_value());
+            lex.get_as_type(lex.default_value());
+         }
+         (void)lex.get_auto();
+         for (auto& b : lex.decompose(clex.static_specifier() | clex.inline_specifier())) (void)b.logogram().what().size();
+         for (auto& b : lex.decompose(clex.const_qualifier() | clex.volatile_qualifier())) (void)b.logogram().what().size();
+      }
       else if (kind == "two-lexicons") {
          impl::Lexicon a;
          {
@@ -169,7 +214,7 @@ namespace {
       for (int k = 2; k + 1 < argc; k += 2) if (std::string(argv[k]) == "--seed") seed = std::stoul(argv[k + 1]);
       static ledger::State state;
       ledger::st = &state;
-      for (std::string kind : { "empty", "unit", "names", "types", "scopes", "regions", "strings", "zoo+print", "two-lexicons" }) {
+      for (std::string kind : { "empty", "unit", "names", "types", "scopes", "regions", "strings", "zoo+print", "two-lexicons", "constants" }) {
          history(kind, seed);                                       // warm-up: lazy initialisation of the runtime
          for (int run = 2; run <= 3; ++run) {
             ledger::inside = true;
